@@ -15,6 +15,8 @@ inductive Fault where
 
 abbrev Buf := Array Nat
 
+deriving instance DecidableEq for Except
+
 /-- checked read -/
 def rd (b : Buf) (i : Nat) : Except Fault Nat :=
   if h : i < b.size then .ok b[i] else .error (.oob i b.size)
